@@ -1,5 +1,7 @@
 //! One module per property.
 
+pub mod c01;
+pub mod c05;
 pub mod c14;
 pub mod c15;
 pub mod c19;
@@ -8,7 +10,7 @@ pub mod c20;
 use crate::engine::Property;
 
 pub fn all() -> Vec<Property> {
-    vec![c14::property(), c15::property(), c19::property(), c20::property()]
+    vec![c01::property(), c05::property(), c14::property(), c15::property(), c19::property(), c20::property()]
 }
 
 pub fn by_id(id: &str) -> Option<Property> {
